@@ -270,16 +270,15 @@ def main(a):
     _, KANI_DIR = kanirun.snapshot(scratch, KANI_SRC)
     gen_path = os.path.join(scratch, "gen.rs")
     n_l2 = 0
+    n_l2_total = 0
     if meta.get("l2", pid == "ALL") and not os.environ.get("VERIF_NO_L2"):
         import l2gen
         insts = l2gen.generate(pid, a.tier, seed)
         if a.only:
             insts = [i for i in insts if a.only in i.name()]
         cap = int(os.environ.get("VERIF_L2_MAX", meta.get("l2_max_" + a.tier, 100000)))
-        if len(insts) > cap:
-            import random as _r
-            _r.Random(seed).shuffle(insts)
-            insts = insts[:cap]
+        n_l2_total = len(insts)
+        insts = l2gen.select(insts, cap, seed)
         l2gen.write(gen_path, insts)
         n_l2 = len(insts)
     hs_all = discover([gen_path] if n_l2 else [])
@@ -499,6 +498,8 @@ def main(a):
             rc = 2
 
     if a.only:
+        for o in other_prop:
+            print("OTHER-PROPERTY-FAILURE " + o)
         for rec in per_harness:
             print(json.dumps(rec))
         return rc
@@ -531,6 +532,7 @@ def main(a):
         "undecided": undecided,
         "failures_attributed_to_other_properties": other_prop[:40],
         "l2_instances": n_l2,
+        "l2_instances_available_in_tier": n_l2_total if n_l2 else 0,
         "known_findings_hit": [kf["what"] for kf, _ in known_hit],
         "repo_head": subprocess.run(["git", "-C", kanirun.REAL_REPO, "rev-parse", "HEAD"], stdout=subprocess.PIPE, text=True).stdout.strip(),
         "repo_dirty": bool(subprocess.run(["git", "-C", kanirun.REAL_REPO, "status", "--porcelain", "--untracked-files=no"], stdout=subprocess.PIPE, text=True).stdout.strip()),
